@@ -84,7 +84,12 @@ static Item draw(vt::Rng& g, long wide) {
     else if (c == 4) it.dv = INFINITY; else if (c == 5) it.dv = v + 0.5; else it.dv = (double)v;
   } else {
     if (g.chance(3)) it.sv = ""; else if (g.chance(30)) { int64_t x = v; it.sv.assign((const char*)&x, 8); }
-    else it.sv = "k" + std::to_string(v);
+    else if (g.chance(50)) it.sv = "k" + std::to_string(v);
+    else {   // every byte length 1..48: the hash treats each length mod 16 (tail bytes) separately
+      it.sv = "s" + std::to_string(v % 97); size_t len = 1 + (size_t)g.below(48);
+      while (it.sv.size() < len) it.sv += (char)('a' + (it.sv.size() * 7 + (size_t)(v % 13 + 13)) % 26);
+      it.sv.resize(len);
+    }
     if (it.type == 11 && it.sv.empty()) it.sv = "z";
   }
   return it;
